@@ -5,6 +5,8 @@ func (w *World) execCall(st *Step) {
 	switch st.Name {
 	case "keyalgebra":
 		w.execKeyAlgebra(st)
+	case "hostile":
+		w.execHostile(w.step, st)
 	default:
 		w.T.Event("unknown call %q ignored", st.Name)
 	}
